@@ -730,11 +730,11 @@ def m_basis(ring, op):
     cls = type(op).__name__
     one = ring.arr([1])[0]
     zero = one - one
-    if cls in ("MidMeasure", "MeasureNode") or (cls != "ParametricMidMeasure" and not hasattr(op, "plane")):
-        if cls not in ("MidMeasure",):
-            raise Unsupported(f"measurement operator {cls}")
+    if cls == "MidMeasure":
         kets = [ring.arr([one, zero]), ring.arr([zero, one])]
         return kets, kets
+    if cls not in ("ParametricMidMeasure", "XMidMeasure", "YMidMeasure"):
+        raise Unsupported(f"measurement operator {cls}")
     if op.plane != "XY":
         raise Unsupported(f"measurement plane {op.plane}")
     if cls == "XMidMeasure":
@@ -891,10 +891,6 @@ def run_pattern(gate, diag, params, ring, pool, forced=None):
     res, n = mbqc_run(ring, ops, st, leaf, forced=forced)
     if res is None and n == 0:
         return dict(inputs=inputs, observed="no outcome branch has non-zero amplitude", expected="at least one feasible branch", vacuous=True)
-    if res is None and forced is None:
-        released = (set(ins) | (st.touched if False else set())) & set(qm.active)
-        if released:
-            return dict(inputs=inputs, observed=f"in-wire {sorted(released)} still active", expected="in-wire released")
     return res
 
 
